@@ -1,9 +1,159 @@
-/- Driver operations for C01 (stub: to be filled by the property's model). -/
+/- Driver operations for C01: the inverse p-th root model (`Model/InvRoot.lean`) at `Rat` and `Float`. Mathlib-free.
+
+* `mat_power`   — `matPower` at `Rat` (exact) on an integer/rational matrix.
+* `newton`      — `powerIteration` + `newtonRoot` (or `oneByOne` for `n = 1`) at `Float`; constants come from the
+                  request (parsed from the source by the harness); kernels: `Float.sqrt`, `Float.pow`, float32 round trip.
+* `newton_rat`  — `newtonOuter` at `Rat` with constant oracles for the two irrational kernels (`fro ↦ fro'`,
+                  `rootp ↦ r` with `r^p = z`): an executed instance of `newton_invariant` / `newton_error_honest`;
+                  returns `X`, the error figure, retries and the exact residual `max|X^p A_d − I_s|`.
+* `eigh_root`   — `eighRoot` at `Float`, `(U, e)` supplied by the caller (kernel output), with the residuals of the
+                  `eigh` specification for the supplied factors.
+* `deflate`     — `lobpcgDeflate` / `lobpcgRedeflate` at `Float`.
+-/
 import PrecondVerif.Kit.Proto
+import PrecondVerif.Model.InvRoot
 
 namespace PrecondVerif.Drv.C01
-open Lean PrecondVerif.Proto
+open Lean PrecondVerif.Proto PrecondVerif.InvRoot
 
-def ops : List Op := []
+instance : Zero Float := ⟨0.0⟩
+instance : One Float := ⟨1.0⟩
+
+structure Codec (α : Type) where
+  dec : Json → R α
+  enc : α → Json
+
+def ratC : Codec Rat := ⟨asRat, ratToJson⟩
+def fltC : Codec Float := ⟨asFloat, floatToJson⟩
+
+/-- flat row-major list → matrix -/
+def getMat {α : Type} [Zero α] (c : Codec α) (j : Json) (key : String) (m n : Nat) : R (Mat α m n) := do
+  let l ← asListOf c.dec (← field j key)
+  if l.length ≠ m * n then throw s!"{key}: expected {m * n} entries, got {l.length}"
+  let a := l.toArray
+  pure fun i k => a.getD (i.1 * n + k.1) 0
+
+def getVec {α : Type} [Zero α] (c : Codec α) (j : Json) (key : String) (n : Nat) : R (Vec α n) := do
+  let l ← asListOf c.dec (← field j key)
+  if l.length ≠ n then throw s!"{key}: expected {n} entries, got {l.length}"
+  let a := l.toArray
+  pure fun i => a.getD i.1 0
+
+def matJson {α : Type} {m n : Nat} (c : Codec α) (A : Mat α m n) : Json :=
+  listToJson c.enc ((List.finRange m).flatMap fun i => (List.finRange n).map fun k => A i k)
+
+def vecJson {α : Type} {n : Nat} (c : Codec α) (v : Vec α n) : Json := listToJson c.enc ((List.finRange n).map v)
+
+def getF (j : Json) (k : String) : R Float := do asFloat (← field j k)
+
+/-- `x.astype(float32)` seen again as a double -/
+def cast32 (x : Float) : Float := x.toFloat32.toFloat
+
+def getConsts (j : Json) : R (NConsts Float) := do
+  pure { numIters := ← getNat j "num_iters", tol := ← getF j "tol", rmax := ← getF j "rmax",
+         retryThr := ← getF j "retry_thr", numTries := ← getNat j "num_tries" }
+
+def newtonOp (j : Json) : R Json := do
+  let n ← getNat j "n"
+  let s ← getNat j "s"
+  let p ← getNat j "p"
+  if p = 0 then throw "p must be positive"
+  let eps ← getF j "eps"
+  let rel ← getBool j "rel"
+  let A ← getMat fltC j "A" n n
+  let v0 ← getVec fltC j "v0" n
+  let c ← getConsts j
+  let floor ← getF j "eps_floor"
+  let piIters ← getNat j "pi_iters"
+  let piTol ← getF j "pi_tol"
+  let pα := Float.ofNat p
+  let alpha := -1.0 / pα
+  let maxEv : Float := if rel then powerIteration Float.sqrt piTol piIters (Mat.mask s A) v0 else 1.0
+  if h : n = 1 then
+    -- the `matrix_size == 1` branch (total_retries = 1, iters = 0, error_ratio = 0)
+    let a := (Mat.mask s A) ⟨0, by omega⟩ ⟨0, by omega⟩
+    let (x, err) := oneByOne p (fun y => Float.pow y alpha) cast32 a (ridgeOf eps maxEv floor)
+    let x := if s = 0 then 0.0 else x
+    let err := if s = 0 then 0.0 else err
+    pure (obj [("x", listToJson floatToJson [x]), ("err", floatToJson err), ("iters", toJson (0 : Nat)),
+               ("ratio", floatToJson 0.0), ("max_ev", floatToJson maxEv), ("retries", toJson (1 : Nat))])
+  else
+    let o := newtonRoot s c p pα alpha Float.sqrt (fun z => Float.pow z (1.0 / pα)) cast32 1000.0 floor eps maxEv A
+    pure (obj [("x", matJson fltC o.x), ("err", floatToJson o.err), ("iters", toJson o.iters),
+               ("ratio", floatToJson o.ratio), ("max_ev", floatToJson o.maxEv), ("retries", toJson o.retries)])
+
+def ratAbs (q : Rat) : Rat := if q < 0 then -q else q
+
+/-- exact Newton run: `fro` and `rootp` are constant oracles (`z = r^p`, `fro' = (1+p)/(2z)`), everything else is the model -/
+def newtonRatOp (j : Json) : R Json := do
+  let n ← getNat j "n"
+  let s ← getNat j "s"
+  let p ← getNat j "p"
+  if p = 0 then throw "p must be positive"
+  let ridge ← getRat j "ridge"
+  let A ← getMat ratC j "A" n n
+  let rs ← getRats j "r"          -- one oracle value per try: r_i with z_i = r_i^p
+  let numIters ← getNat j "num_iters"
+  let c : NConsts Rat := { numIters := numIters, tol := ← getRat j "tol", rmax := ← getRat j "rmax",
+                           retryThr := ← getRat j "retry_thr", numTries := ← getNat j "num_tries" }
+  let pα : Rat := (p : Rat)
+  let alpha : Rat := -1 / pα
+  let ra := rs.toArray
+  -- per-try oracles are looked up through the ridge multiplier of the try; the model itself is unchanged
+  let body (i : Nat) : OState (Mat Rat n n) Rat :=
+    let r := ra.getD i 1
+    let z := natPow r p
+    let fro' := (1 + pα) / (2 * z)
+    let K := matAlg n s (fun _ => fro')
+    outerBody K c p pα alpha (fun _ => r) (fun x => x) (Mat.mask s A) ridge i
+  let K0 := matAlg (α := Rat) n s (fun x => x)
+  let o := outerLoop body c.numTries c.numTries (outerInit K0 1000)
+  -- exact residual of the returned root against the ridge of the last try
+  let Ad := damped K0 (Mat.mask s A) ridge (o.tries - 1)
+  let resid := K0.dist (Mat.mul (matPower Mat.mul Mat.one o.x p) Ad)
+  pure (obj [("x", matJson ratC o.x), ("err", ratToJson o.err), ("iters", toJson o.iters), ("ratio", ratToJson o.ratio),
+             ("retries", toJson o.tries), ("resid", ratToJson resid), ("honest", Json.bool (decide (resid ≤ o.err)))])
+
+def fmax (a b : Float) : Float := if a < b then b else a
+
+def eighOp (j : Json) : R Json := do
+  let n ← getNat j "n"
+  let s ← getNat j "s"
+  let p ← getNat j "p"
+  if p = 0 then throw "p must be positive"
+  let ridge ← getF j "ridge"
+  let A ← getMat fltC j "A" n n
+  let U ← getMat fltC j "U" n n
+  let e ← getVec fltC j "e" n
+  let alpha := -1.0 / Float.ofNat p
+  let (x, err) := eighRoot s Float.sqrt (fun y => Float.pow y alpha) ridge A U e
+  -- residuals of the kernel specification for the supplied factors
+  let R := regularized s A ridge
+  let uo := Mat.maxAbs (Mat.sub (Mat.mul (Mat.transpose U) U) (Mat.one : Mat Float n n))
+  let rec_ := Mat.maxAbs (Mat.sub (Mat.mul (Mat.mul U (fun i k => if i = k then e i else 0.0 : Mat Float n n)) (Mat.transpose U)) R)
+  pure (obj [("x", matJson fltC x), ("err", floatToJson err), ("spec_ortho", floatToJson uo), ("spec_recon", floatToJson rec_),
+             ("r_scale", floatToJson (Mat.maxAbs R))])
+
+def ops : List Op := [
+  ("mat_power", fun j => do
+    let n ← getNat j "n"
+    let p ← getNat j "p"
+    let A ← getMat ratC j "A" n n
+    pure (obj [("x", matJson ratC (matPower Mat.mul Mat.one A p))])),
+  ("newton", newtonOp),
+  ("newton_rat", newtonRatOp),
+  ("eigh_root", eighOp),
+  ("deflate", fun j => do
+    let n ← getNat j "n"
+    let k ← getNat j "k"
+    let A ← getMat fltC j "A" n n
+    let V ← getMat fltC j "V" n k
+    let w ← getVec fltC j "w" k
+    let wmin ← getF j "wmin"
+    let X ← getMat fltC j "X" n n
+    let pd ← getVec fltC j "pth_diff" k
+    pure (obj [("deflated", matJson fltC (lobpcgDeflate Float.sqrt A V w wmin)),
+               ("redeflated", matJson fltC (lobpcgRedeflate Float.sqrt X V pd))]))
+]
 
 end PrecondVerif.Drv.C01
